@@ -149,6 +149,7 @@ type interpreter struct {
 	stepLimit          int64
 	params             map[string]int  // harness parameters (nd.Param)
 	known              map[string]bool // confirmed known findings (nd.Known)
+	callDepth          int             // frames of in-flight calls (unbounded recursion is a fatal error)
 	traceSum           uint64          // digest of the nd.Assert / nd.Reach calls of the current path
 	traceN             int
 	noSample           bool            // the path used nd.Section / nd.NoRace (run concurrently by the native twin)
@@ -598,6 +599,13 @@ func loc(fset *token.FileSet, pos token.Pos) string {
 // callSSA interprets a call to function fn with arguments args,
 // and lexical environment env, returning its result.
 // callpos is the position of the callsite.
+// fatalError: a condition the Go runtime ends the process for (not a panic the program could recover from).
+type fatalError string
+
+// maxCallDepth: deeper than any recursion of the code under test on the bounded inputs of the harnesses (the
+// parser recurses once per nesting level of an expression), far below what the host stack could take.
+const maxCallDepth = 3000
+
 func callSSA(i *interpreter, caller *frame, callpos token.Pos, fn *ssa.Function, args []value, env []value) value {
 	if i.mode&EnableTracing != 0 {
 		fset := fn.Prog.Fset
@@ -613,6 +621,13 @@ func callSSA(i *interpreter, caller *frame, callpos token.Pos, fn *ssa.Function,
 		i:      i,
 		caller: caller, // for panic/recover
 		fn:     fn,
+	}
+	// unbounded recursion: natively the goroutine's stack grows to its limit and the runtime ends the process
+	// with "fatal error: stack overflow", which no recover() intercepts
+	i.callDepth++
+	defer func() { i.callDepth-- }()
+	if i.callDepth > maxCallDepth {
+		panic(fatalError(fmt.Sprintf("fatal error: stack overflow (call depth %d, unbounded recursion) in %s", i.callDepth, fn)))
 	}
 	if fn.Parent() == nil {
 		meta := fnMetas[fn]
@@ -821,8 +836,9 @@ func doRecover(caller *frame) value {
 		case string:
 			// The interpreter explicitly called panic().
 			return iface{caller.i.runtimeErrorString, p}
-		case pathInfeasible, pathSkipped, unsupported, abortThread:
-			// engine control flow is not visible to the target program
+		case pathInfeasible, pathSkipped, unsupported, abortThread, fatalError:
+			// engine control flow is not visible to the target program (nor is a fatal error of the Go runtime,
+			// such as a stack overflow: recover() does not stop it)
 			panic(p)
 		default:
 			panic(fmt.Sprintf("unexpected panic type %T in target call to recover()", p))
